@@ -143,7 +143,9 @@ CLAIMS = {
              "keeps the KeyError-raising helper for d.pop(key) (the miss-ignoring one needs an explicit default and an unused result); "
              "that the call site of bytearray.append(v) for int / long long / unsigned int / Py_ssize_t arguments appends exactly the "
              "byte values and raises for everything else (L3 on the object model, helpers by contract); that list(x) selects the helper which may "
-             "return its argument (__Pyx_PySequence_ListKeepNew) only for an argument living in a compiler temporary; (b) for a catalogue of builtin "
+             "return its argument (__Pyx_PySequence_ListKeepNew) only for an argument living in a compiler temporary; that the optional integer "
+             "bounds of optimised str / bytes method calls are normalised in place (_inject_int_default_argument: default for an absent or literal-None "
+             "bound, run-time None mapped to the default's text, nothing else changed); (b) for a catalogue of builtin "
              "calls on C integers (abs, min / max with 2-4 operands of mixed C types and constants, nested min/max, bool()) the C function "
              "the working-tree compiler emits returns, for ALL argument values, the value Python's semantics give the same source text "
              "(reference evaluator dv/pyref.py over the catalogue's own ast, validated against CPython every run). Kernel: these helpers "
